@@ -18,6 +18,7 @@ type Clause struct {
 	E     Expr
 	Line  int
 	File  string
+	Props []string // optional: the properties this clause serves (label[C14 C05]: ...); default: those of the object / function
 }
 
 // LoopSpec collects the clauses for one loop (by source-order ordinal, 1-based).
@@ -142,6 +143,7 @@ type PkgSpec struct {
 	Assumes []string    // free-text assumptions recorded for the evidence
 }
 
+var labelPropsRe = regexp.MustCompile(`^([A-Za-z_][A-Za-z0-9_]*)\[([A-Z0-9 ]+)\]:\s*(.*)$`)
 var labelRe = regexp.MustCompile(`^([A-Za-z_][A-Za-z0-9_.\-]*)\s*:\s+(.*)$`)
 
 // ParseSpecFile reads the //@ lines of a file.
@@ -189,14 +191,18 @@ func ParseSpecFile(path, pkgPath string, ps *PkgSpec) error {
 	}
 	mkClause := func(n int, rest string) (*Clause, error) {
 		label := ""
-		if m := labelRe.FindStringSubmatch(rest); m != nil && m[1] != "forall" && m[1] != "exists" {
+		var props []string
+		if m := labelPropsRe.FindStringSubmatch(rest); m != nil {
+			// label[C14 C05]: expr
+			label, props, rest = m[1], strings.Fields(m[2]), m[3]
+		} else if m := labelRe.FindStringSubmatch(rest); m != nil && m[1] != "forall" && m[1] != "exists" {
 			label, rest = m[1], m[2]
 		}
 		e, err := ParseExpr(rest)
 		if err != nil {
 			return nil, fail(n, "%v in %q", err, rest)
 		}
-		return &Clause{Label: label, Src: rest, E: e, Line: n, File: path}, nil
+		return &Clause{Label: label, Src: rest, E: e, Line: n, File: path, Props: props}, nil
 	}
 	for _, l := range ls {
 		kw, rest := splitKw(l.s)
@@ -1015,4 +1021,12 @@ func (p *parser) parsePrimary() (Expr, error) {
 		}
 	}
 	return nil, fmt.Errorf("unexpected token %q", t.s)
+}
+
+// clauseProps: the properties an obligation generated from clause cl counts for.
+func clauseProps(cl *Clause, dflt []string) []string {
+	if len(cl.Props) > 0 {
+		return cl.Props
+	}
+	return dflt
 }
